@@ -229,6 +229,65 @@ def _point(ctx, os_, major, minor, arch, text, cross=True):
         ctx.sample({"platform": text, "first_tags": got[:5], "n_tags": len(got)})
 
 
+def _consumer_mutation(ctx, retained):
+    """A caller edits the lists the public helpers hand out (they are annotated as plain lists): the tag lists of
+    platforms built afterwards must not change."""
+    from dep_logic.tags import Platform
+    from dep_logic.tags.platform import Arch
+
+    rnd = ctx.rnd
+    first = {text: tags for text, _p, tags in retained}
+    edited = 0
+    for arch in Arch:
+        for name in ("get_mac_binary_formats",):
+            fn = getattr(arch, name, None)
+            if fn is None:
+                continue
+            try:
+                lst = fn()
+            except Exception:  # noqa: BLE001
+                continue
+            if isinstance(lst, list):
+                lst.sort(reverse=True)
+                lst.append("edited-by-caller")
+                if rnd.random() < 0.5:
+                    del lst[:1]
+                edited += 1
+    try:
+        ch = Platform.choices()
+        if isinstance(ch, list):
+            ch.reverse()
+            ch.append("edited-by-caller")
+            edited += 1
+    except Exception:  # noqa: BLE001
+        pass
+    # a tag list handed out by one platform object is edited; OTHER objects (also for the same name) stay as they were
+    sample = rnd.sample(retained, min(len(retained), 40))
+    for text, p, _tags in sample:
+        try:
+            lst = Platform.parse(text).compatible_tags
+            if isinstance(lst, list):
+                lst.reverse()
+                lst.append("edited-by-caller")
+                edited += 1
+        except Exception:  # noqa: BLE001
+            pass
+    ctx.shape("consumer-mutation", edited)
+    for text, want in first.items():
+        bump("after-consumer-mutation")
+        try:
+            now = list(Platform.parse(text).compatible_tags)
+        except Exception as e:  # noqa: BLE001
+            violation(PROP, "compatible_tags", f"raised {type(e).__name__} after a caller edited lists it had been handed",
+                      {"platform": text, "group": "consumer-mutation"}, case={"kind": "consumer-mutation"})
+            continue
+        if now != want:
+            violation(PROP, "compatible_tags", "the tag list of a freshly parsed platform changed after a caller edited lists "
+                      "handed out by public helpers (get_mac_binary_formats / choices / another object's compatible_tags)",
+                      {"platform": text, "added": [t for t in now if t not in want][:6], "removed": [t for t in want if t not in now][:6],
+                       "order_changed": sorted(now) == sorted(want), "group": "consumer-mutation"}, case={"kind": "consumer-mutation"})
+
+
 def run(ctx):
     from dep_logic.tags import Platform
 
@@ -266,9 +325,13 @@ def run(ctx):
             violation(PROP, "compatible_tags", "the tag list of a platform object changed after other platforms were evaluated",
                       {"platform": text, "added": [t for t in now if t not in first][:6], "removed": [t for t in first if t not in now][:6],
                        "group": "aliasing"}, case={"kind": "platform", "point": [None, 0, 0, "", text]})
+    _consumer_mutation(ctx, retained)
     ctx.current_case = None
     ctx.extra["exhaustive"] = True
 
 
 def replay(ctx, case):
+    if case.get("kind") == "consumer-mutation":   # sequence-dependent: the shard's workload is repeated as a whole
+        run(ctx)
+        return
     _point(ctx, *case["point"], cross=False)
